@@ -121,6 +121,9 @@ func verdict(res *Result, kf []KnownFinding, id, tier string, dump, writeEv bool
 			}
 		}
 	}
+	if len(res.Renames) > 0 {
+		fmt.Printf("NOTE: %d unexported identifier(s) renamed with respect to the reference table were read under their reference names: %s\n", len(res.Renames), strings.Join(res.Renames, "; "))
+	}
 	cached := ""
 	if res.FromCache {
 		cached = " (obligations from the result cache: identical tree digest)"
@@ -166,6 +169,9 @@ func verdict(res *Result, kf []KnownFinding, id, tier string, dump, writeEv bool
 		}
 		if len(res.TestsNotes) > 0 {
 			cov["tests_load_notes"] = res.TestsNotes
+		}
+		if len(res.Renames) > 0 {
+			cov["renamed_identifiers_normalised"] = res.Renames
 		}
 		assume := []string{
 			"go/types, go/ssa and the VTA call graph (golang.org/x/tools v0.29.0) represent the program faithfully; reflection is not followed except gorpc's string dispatch, which is stitched explicitly",
